@@ -23,7 +23,8 @@ REQUIRED = ["prep_checked:dominion", "prep_checked:hart", "prep_rejections_check
             "second_lookup_in_same_manifest", "cvr_identifiers_with_zero_padded_card_numbers",
             "sampled_phantom_cvrs_with_another_identifier_prefix", "lookups_with_repeated_sample_numbers", "manifest_columns_not_in_canonical_order",
             "manifest_counts_stored_unsigned_narrow_or_float", "manifest_already_carries_a_cumulative_count_column",
-            "sample_given_as_a_series_with_other_row_labels", "cvrs_whose_tally_pool_is_not_their_own_batch"]
+            "sample_given_as_a_series_with_other_row_labels", "cvrs_whose_tally_pool_is_not_their_own_batch",
+            "lookups_in_a_manifest_whose_phantom_batch_is_not_the_last_row"]
 ASSUMPTIONS = ["unique (tabulator, batch) labels per manifest", "Dominion lookup is 1-based, Hart lookup 0-based, as each "
                "vendor module documents and its test pins", "phantom CVR ids use the documented prefix 'phantom-1-'"]
 N_CASES = {"quick": 8000, "thorough": 64000}
@@ -307,6 +308,41 @@ def run_case(case, rec):
                               {"card": cid, "recorded": got, "drawn_at": where, "sample": sample3})
                 return
 
+    # two separately prepared counting groups stacked into one manifest (cumulative counts recomputed): the first group's
+    # phantom batch is then in the MIDDLE of the manifest - the cards that fall into it, and no others, are phantoms
+    if bound > total and bound + 6 <= 300:
+        import pandas as pd
+        sizes2 = [3, 0, 2]
+        if vendor == "dominion":
+            df2 = pd.DataFrame({"Tray #": [1, 2, 3], "Tabulator Number": [501, 501, 502], "Batch Number": [1, 2, 1],
+                                "Total Ballots": sizes2, "VBMCart.Cart number": [9, 9, 9]})
+            labels2 = [("501", "1"), ("501", "2"), ("502", "1")]
+        else:
+            df2 = pd.DataFrame({"Container": ["z", "z", "z"], "Tabulator": ["t501", "t501", "t502"], "Batch Name": ["Z1", "Z2", "Z3"],
+                                "Number of Ballots": sizes2})
+            labels2 = [("t501", "Z1"), ("t501", "Z2"), ("t502", "Z3")]
+        okp, p2 = rec.guard(f"c17.call:{vendor}.prep_manifest", V.prep_manifest, df2, 5, 0)
+        if not okp:
+            return
+        stacked = pd.concat([man, p2[0]], ignore_index=True)
+        stacked["cum_cards"] = pd.to_numeric(stacked[sizecol]).astype("int64").cumsum()
+        enum_s = enum + enumeration(sizes2, labels2, 5, one_based)
+        nums = list(range(1, len(enum_s) + 1)) if one_based else list(range(len(enum_s)))
+        rng.shuffle(nums)
+        oks, rs = rec.guard(f"c17.call:{vendor}.sample_from_manifest", V.sample_from_manifest, stacked, nums)
+        if not oks:
+            return
+        rec.count("lookups_in_a_manifest_whose_phantom_batch_is_not_the_last_row")
+        want_all = sorted(f"{t_}-{b_}-{p_}" for t_, b_, p_, _ in enum_s)
+        got_all = sorted(str(c[5]) if vendor == "dominion" else str(c[4]) for c in rs[0])
+        want_phs = sorted(f"{t_}-{b_}-{p_}" for t_, b_, p_, ph_ in enum_s if ph_)
+        got_phs = sorted(m.id for m in rs[2])
+        if got_all != want_all:
+            rec.violation("c17.lookup", f"{vendor}:wrong_card:stacked_manifest", {"got": got_all[:10], "want": want_all[:10]})
+            return
+        if got_phs != want_phs or any((not m.phantom) or m.votes for m in rs[2]):
+            rec.violation("c17.lookup", f"{vendor}:phantom_mvrs_wrong:stacked_manifest", {"got": got_phs, "want": want_phs})
+            return
     # ---- sample_from_cvrs -----------------------------------------------------------------------------------
     cvr_list = []
     for (tab, batch, pos, ph) in enum:
